@@ -312,7 +312,7 @@ pub fn run(run: &Run) {
     }
     prop_search(
         run,
-        Search { check: "status-str-random", cases: run.tier.pick(100_000, 4_000_000), workers, max_shrink_iters: 2000 },
+        Search { check: "status-str-random", cases: run.tier.pick(500_000, 6_000_000), workers, max_shrink_iters: 2000 },
         || prop_oneof![3 => "[+-]?[0-9]{0,7}", 2 => "[ +0-9a-f.-]{0,6}", 1 => "\\PC{0,5}"],
         |s| match guard(vcore::catch(|| test_status_str(s))) {
             Ok(()) => Outcome::pass(s.len() == 3),
@@ -322,7 +322,7 @@ pub fn run(run: &Run) {
     );
     prop_search(
         run,
-        Search { check: "status-num-random", cases: run.tier.pick(50_000, 2_000_000), workers, max_shrink_iters: 2000 },
+        Search { check: "status-num-random", cases: run.tier.pick(300_000, 4_000_000), workers, max_shrink_iters: 2000 },
         || prop_oneof![0u64..1000, any::<u64>(), (0u64..20).prop_map(|k| (1u64 << (k + 8)) + 200)],
         |v| match guard(vcore::catch(|| test_status_num(*v))) {
             Ok(()) => Outcome::pass(near(*v)),
@@ -347,7 +347,7 @@ pub fn run(run: &Run) {
     run.sample("request-matrix", || json!({"method": "Right", "scheme": "Right", "protocol": "Missing", "authority": "Right", "path": "Right"}));
     prop_search(
         run,
-        Search { check: "request", cases: run.tier.pick(60_000, 2_000_000), workers, max_shrink_iters: 3000 },
+        Search { check: "request", cases: run.tier.pick(300_000, 4_000_000), workers, max_shrink_iters: 3000 },
         || {
             let ps = || proptest::sample::select(vec![Ps::Right, Ps::Right, Ps::Right, Ps::Missing, Ps::WrongValue, Ps::WrongCase, Ps::NearMissName]);
             (ps(), ps(), ps(), ps(), ps(), prop_oneof![Just("CONNECT".to_string()), Just("https".to_string()), Just("webtransport".to_string()), "[A-Za-z]{0,8}"], proptest::collection::vec(("[a-z][a-z0-9-]{0,10}", "[ -~]{0,12}"), 0..6))
@@ -367,7 +367,7 @@ pub fn run(run: &Run) {
     }
     prop_search(
         run,
-        Search { check: "insert", cases: run.tier.pick(20_000, 500_000), workers, max_shrink_iters: 1000 },
+        Search { check: "insert", cases: run.tier.pick(100_000, 1_000_000), workers, max_shrink_iters: 1000 },
         || prop_oneof![":[a-zA-Z]{1,10}", "[a-z:-]{0,10}", "\\PC{0,6}"],
         |n| match guard(vcore::catch(|| test_insert(n))) {
             Ok(()) => Outcome::pass(n.starts_with(':')),
@@ -377,7 +377,7 @@ pub fn run(run: &Run) {
     );
     prop_search(
         run,
-        Search { check: "url", cases: run.tier.pick(40_000, 1_000_000), workers, max_shrink_iters: 3000 },
+        Search { check: "url", cases: run.tier.pick(200_000, 2_000_000), workers, max_shrink_iters: 3000 },
         url_case,
         |c| match guard(vcore::catch(|| test_url(c))) {
             Ok(()) => Outcome::pass(c.scheme == "https" && (c.query.is_some() || c.port.is_some())),
